@@ -72,6 +72,7 @@ type c08Case struct {
 	More    []string `json:"more_profiles,omitempty"` // further sources given on the same command line
 	Args    []string `json:"args,omitempty"`
 	Runs    int      `json:"runs,omitempty"`
+	Envs    []string `json:"environments_of_the_two_outputs,omitempty"`
 	Out1    string   `json:"output_1,omitempty"`
 	Out2    string   `json:"output_2,omitempty"`
 	Orders  []string `json:"observed_orders,omitempty"`
@@ -614,6 +615,11 @@ func c08GenProfile(r *Rng, strategy string) *profile.Profile {
 	}
 	names := []string{"main", "foo", "bar", "baz", "qux", "runtime.mallocgc"}
 	files := []string{"a.go", "b.go", "dir/a.go"}
+	if r.Chance(50) {
+		// absolute build paths whose components are also base names of working directories of the
+		// environment variants (c08_env.go)
+		files = []string{"/build/src/myservice/a.go", "/build/src/myservice/dir/a.go", "/build/src/libutil/b.go", "/build/work/scratch/c.go"}
+	}
 	nf := 3 + r.Intn(6)
 	if strategy == "many-edges" {
 		nf = 8 + r.Intn(8)
@@ -717,6 +723,8 @@ var c08TreeArgSets = [][]string{{"-dot", "-call_tree", "-nodefraction=0", "-edge
 type c08Job struct {
 	canon  string
 	more   []string
+	tzFree bool
+	envs   []string
 	toFile bool // the command writes its report with -output=<file> (weblist would open a browser)
 	files  []string
 	args   []string
@@ -726,13 +734,19 @@ type c08Job struct {
 }
 
 func c08RunCLI(c *Ctx, tmp string, files []string, args []string, outFile string) ([]byte, int) {
+	return c08RunCLIEnv(c, files, args, outFile, c08EnvVariant(tmp, 0, false))
+}
+
+// c08RunCLIEnv runs pprof in the given environment variant (through /bin/sh only to set the umask).
+func c08RunCLIEnv(c *Ctx, files []string, args []string, outFile string, ev c08Env) ([]byte, int) {
 	full := append([]string{}, args...)
 	if outFile != "" {
 		full = append(full, "-output="+outFile)
 	}
 	full = append(append(full, "-symbolize=none"), files...)
-	cmd := exec.Command(c.Pprof, full...)
-	cmd.Env = []string{"HOME=" + tmp, "PPROF_TMPDIR=" + tmp, "PPROF_BINARY_PATH=" + tmp, "PATH=/nonexistent", "TZ=UTC"}
+	cmd := exec.Command("/bin/sh", append([]string{"-c", "umask " + ev.Umask + `; exec "$0" "$@"`, c.Pprof}, full...)...)
+	cmd.Env = ev.Env
+	cmd.Dir = ev.Dir
 	var out bytes.Buffer
 	cmd.Stdout = &out
 	err := cmd.Run()
@@ -758,6 +772,15 @@ func c08NeedsFile(args []string) bool {
 }
 
 func c08RunJobs(c *Ctx, tmp string, jobs []*c08Job, runs int) {
+	c08EnvPrepare(tmp)
+	for _, j := range jobs {
+		j.tzFree = true // no "Time:" legend line: the time zone must not matter either
+		for _, cn := range append([]string{j.canon}, j.more...) {
+			if p, err := ParseCanon(cn); err != nil || p.TimeNanos != 0 {
+				j.tzFree = false
+			}
+		}
+	}
 	var wg sync.WaitGroup
 	ch := make(chan *c08Job)
 	for w := 0; w < c08Workers(); w++ {
@@ -770,7 +793,14 @@ func c08RunJobs(c *Ctx, tmp string, jobs []*c08Job, runs int) {
 					if j.toFile {
 						outFile = filepath.Join(tmp, fmt.Sprintf("out-w%d.html", w))
 					}
-					o, code := c08RunCLI(c, tmp, j.files, j.args, outFile)
+					ev := c08EnvVariant(tmp, k, j.tzFree)
+					if strings.HasPrefix(j.args[0], "-list") || strings.HasPrefix(j.args[0], "-weblist") {
+						// documented exception: source files are looked up relative to the working
+						// directory, and the "could not find file … on path <cwd>" message names it
+						ev.Dir = ""
+					}
+					o, code := c08RunCLIEnv(c, j.files, j.args, outFile, ev)
+					j.envs = append(j.envs, ev.Name)
 					j.outs = append(j.outs, o)
 					j.codes = append(j.codes, code)
 				}
@@ -837,6 +867,9 @@ func c08JudgeJobs(c *Ctx, jobs []*c08Job, runs int) {
 				diff = worst // show the pair that differs beyond a renumbering
 			}
 			cs := c08Case{Kind: "cli", Stream: j.stream, Profile: j.canon, More: j.more, Args: j.args, Runs: 4 * runs, Out1: c08ShowOut(j.outs[0]), Out2: c08ShowOut(j.outs[diff])}
+			if len(j.envs) > diff {
+				cs.Envs = []string{j.envs[0], j.envs[diff]}
+			}
 			sig := "C08/cli/" + key + "/nondeterministic"
 			if known {
 				// several tree nodes share one NodeInfo and the outputs differ only in node
@@ -1277,7 +1310,7 @@ func c08ReplayCLI(c *Ctx, cs c08Case) {
 }
 
 func runC08(c *Ctx) {
-	c.Res.Rule = "(i) 7 node orders + EdgeMap.Sort + SortTags(flat|cum) on 8 shuffles of tie-rich element sets (weights from {±5,±3,7,0,±1,MinInt64,±MaxInt64}; equal names at different addresses/objects/lines; stream 'spaces' = strings with embedded spaces, kept apart): one order over all shuffles, equal to the model's sortBy(lessOf regenerated descriptors), renderings equal; non-trivial = at least two elements agree on the primary key magnitude or the printable name. (ii) generated valid tie-rich profiles (strategies pm-pairs, same-names, equal-flat-cum, positive, many-edges) × every CLI format (-top -tree -peek -dot -callgrind -tags -traces -raw -proto -topproto + option variants), k fresh processes each, stdout and exit code byte-compared; non-trivial = pprof exits 0 with non-empty output; in-process serialization twice / reparse-reserialize. (iii) local symbolization through the real symbolizer with a scripted ObjTool on unsymbolized profiles with 3-5 mappings (locations interleaved, some functions answered by several binaries, sometimes sparse pre-existing ids): 5 repetitions whose per-mapping SourceLine latency is permuted and GOMAXPROCS varied must serialize byte-identically, and ids/prof.Function order must equal the model's first-come numbering; non-trivial = at least 3 mappings need symbolization. (iv) web UI payloads (json of rpt.Stacks(), /top /flamegraph /peek /source /disasm /download) of generated profiles computed in 5 fresh processes each (the harness re-executed as C08child) and byte-compared; non-trivial = /top and /flamegraph answer 200 and the stack data is non-empty. (v) 8 goroutines serialising ONE label-rich profile concurrently (Write/WriteUncompressed/Copy), each result compared with a lone serialisation. (vi) parsing: generated legacy texts (heap v1/v2, growthz, contentionz, Go mutex, threadz, Go count) and bare memory maps (ParseProcMaps, ParseMemoryMap) whose maps use 2-5 substitution attributes with prefix-overlapping names, redefinitions and both map-line syntaxes, parsed 32 times in process and once in each fresh child: String() and WriteUncompressed identical; non-trivial = accepted by the parser. (vii) residual-edge graph shapes (mutual recursion, rotations, cycles of 2-4 hubs over helpers that -nodefraction/-nodecount drop): -dot in 16 fresh processes and 24 renders in process. (viii) time probe: Profile.Write and pprof -proto of a profile without collection time, repeated more than a second apart, byte-identical. The web stream includes profiles with more matching functions/files (60-90) than the web UI limits (50) and a profile-scripted ObjTool so that /disasm and /source listings are produced."
+	c.Res.Rule = "(i) 7 node orders + EdgeMap.Sort + SortTags(flat|cum) on 8 shuffles of tie-rich element sets (weights from {±5,±3,7,0,±1,MinInt64,±MaxInt64}; equal names at different addresses/objects/lines; stream 'spaces' = strings with embedded spaces, kept apart): one order over all shuffles, equal to the model's sortBy(lessOf regenerated descriptors), renderings equal; non-trivial = at least two elements agree on the primary key magnitude or the printable name. (ii) generated valid tie-rich profiles (strategies pm-pairs, same-names, equal-flat-cum, positive, many-edges) × every CLI format (-top -tree -peek -dot -callgrind -tags -traces -raw -proto -topproto + option variants), k fresh processes each, stdout and exit code byte-compared; non-trivial = pprof exits 0 with non-empty output; in-process serialization twice / reparse-reserialize. (iii) local symbolization through the real symbolizer with a scripted ObjTool on unsymbolized profiles with 3-5 mappings (locations interleaved, some functions answered by several binaries, sometimes sparse pre-existing ids): 5 repetitions whose per-mapping SourceLine latency is permuted and GOMAXPROCS varied must serialize byte-identically, and ids/prof.Function order must equal the model's first-come numbering; non-trivial = at least 3 mappings need symbolization. (iv) web UI payloads (json of rpt.Stacks(), /top /flamegraph /peek /source /disasm /download) of generated profiles computed in 5 fresh processes each (the harness re-executed as C08child) and byte-compared; non-trivial = /top and /flamegraph answer 200 and the stack data is non-empty. (v) 8 goroutines serialising ONE label-rich profile concurrently (Write/WriteUncompressed/Copy), each result compared with a lone serialisation. (vi) parsing: generated legacy texts (heap v1/v2, growthz, contentionz, Go mutex, threadz, Go count) and bare memory maps (ParseProcMaps, ParseMemoryMap) whose maps use 2-5 substitution attributes with prefix-overlapping names, redefinitions and both map-line syntaxes, parsed 32 times in process and once in each fresh child: String() and WriteUncompressed identical; non-trivial = accepted by the parser. (vii) residual-edge graph shapes (mutual recursion, rotations, cycles of 2-4 hubs over helpers that -nodefraction/-nodecount drop): -dot in 16 fresh processes and 24 renders in process. (ix) environment independence: repetition k of every CLI job runs in environment variant k mod 6 (working directory — also ones named like path components of the profile's file names —, HOME, TMPDIR, PPROF_TMPDIR, LANG/LC_ALL, TERM/COLUMNS, GOMAXPROCS, umask, PATH order; TZ only for profiles without collection time), web children likewise for cwd/HOME. (viii) time probe: Profile.Write and pprof -proto of a profile without collection time, repeated more than a second apart, byte-identical. The web stream includes profiles with more matching functions/files (60-90) than the web UI limits (50) and a profile-scripted ObjTool so that /disasm and /source listings are produced."
 	if c.Replay != "" {
 		var cs c08Case
 		if err := c.LoadReplay(&cs); err != nil {
